@@ -190,4 +190,7 @@ def obligations(tier, rng):
                     out.append(ob('C08', 'dense', 'ct/%s/%s[%d,%d]/%s %s' % (mode, op, a, b, name, itext), op=op, a=a, b=b, itext=itext,
                                   unit=unit, scale=scale, mode=mode, n=n, max_paths=20000, wall=600))
     seen = set()
-    return [o for o in out if not (o['oid'] in seen or seen.add(o['oid']))]
+    res_ = [o for o in out if not (o['oid'] in seen or seen.add(o['oid']))]
+    from .. import core as _core
+    res_ = res_ + _core.make_twins(res_, [('dt/offline/P=1000000000ns/once_t[1,2]/both-s', 'window'), ('dt/pastified/P=1000000000ns/eventually_t[1,2]/both-ms', 'window')]) + _core.make_forkmode(res_, [])
+    return res_
